@@ -614,11 +614,8 @@ struct olc_harness final : harness {
       if (mem != TR.live_bytes) {
         const std::string m = "after the drained concurrent phase the index reports " + std::to_string(mem) +
                               " bytes but holds " + std::to_string(TR.live_bytes) + " bytes from the allocator";
-        if (mem < TR.live_bytes) {
-          if (v04.empty()) v04 = m + " (a retired node was never freed)";
-        } else if (v04.empty()) {
-          v04 = m + " (a block still accounted for was freed)";
-        }
+        // (decides C10 only: C04's 'freed exactly once, nothing lost' is decided without the reported
+        // statistics - ASan for double frees, the live set after destruction for lost nodes)
         if (v10.empty()) v10 = m;
       }
       const verif::shape sh = verif::canonical_shape(final_state);
